@@ -22,6 +22,13 @@ pub fn from_r2d(dt: u8, ds: u8, r: &R2D) -> StMoc {
   StMoc { dt, ds, elems }
 }
 
+/// the conversion the store applies to every range-2D result before keeping it
+/// (storage/u64idx: `moc.time_space_iter(dt, ds).into_range_moc2()`)
+pub fn via_tsi(dt: u8, ds: u8, r: &R2D) -> StMoc {
+  use moc::moc2d::RangeMOC2Iterator;
+  from_moc2(r.time_space_iter(dt, ds).into_range_moc2())
+}
+
 /// observation: time range at max depth + space coverage (ranges) ; `cell` = Some(depth-ds cell) when positional
 #[derive(Clone, Debug)]
 pub struct Obs {
@@ -57,7 +64,7 @@ pub fn run(ctx: &Ctx) -> Report {
   let mut rep = Report::default();
   let mut orc = Oracle::spawn();
   let mut rng = Rng::new(ctx.seed);
-  rep.rule = "observation lists (<= 12; time-sorted, reversed, shuffled, first not the earliest, simultaneous at different positions, duplicated, touching and overlapping time ranges, at the bottom or top of the time domain) of three kinds: (instant, position cell), (time range, position cell), (time range, space coverage); depths dt in {0,3,10,61} x ds in {0,1,5,29}; streaming builders with capacities {1,2,3,len,len+1,default} and the range-2D path (create_from_times_positions, create_from_time_ranges_positions, create_from_time_ranges_spatial_coverage). Outputs judged by extracted pts_eqb + validity checkers. non-trivial = >= 2 observations; distinct = distinct (observations, capacity)".to_string();
+  rep.rule = "observation lists (<= 12; time-sorted, reversed, shuffled, first not the earliest, simultaneous at different positions, duplicated, touching and overlapping time ranges, at the bottom or top of the time domain) of three kinds: (instant, position cell), (time range, position cell), (time range, space coverage); depths dt in {0,3,10,61} x ds in {0,1,5,29}; streaming builders with capacities {1,2,3,len,len+1,default} and the range-2D path (create_from_times_positions, create_from_time_ranges_positions, create_from_time_ranges_spatial_coverage; observations with an empty space coverage included), each range-2D result both read directly and through time_space_iter().into_range_moc2() (the conversion the store applies). Outputs judged by extracted pts_eqb + validity checkers. non-trivial = >= 2 observations; distinct = distinct (observations, capacity)".to_string();
   let n = ctx.n(3_000, 100_000);
   for _ in 0..n {
     let dt = *rng.pick(&[0u8, 3, 10, 61]);
@@ -89,7 +96,9 @@ pub fn run(ctx: &Ctx) -> Report {
           (a, b.max(a + 1))
         };
         if kind == 2 {
-          Obs { ta, tb, cell: None, s: pool[rng.below(pool.len() as u64) as usize].clone() }
+          // an observation may have an EMPTY space coverage (it then contributes nothing)
+          let sc = if rng.chance(1, 6) { Vec::new() } else { pool[rng.below(pool.len() as u64) as usize].clone() };
+          Obs { ta, tb, cell: None, s: sc }
         } else {
           let cell = if rng.chance(1, 4) { ncells_s - 1 - rng.below(2) } else { rng.below(ncells_s.min(5)) };
           Obs { ta, tb, cell: Some(cell), s: vec![(cell << sh_s, (cell + 1) << sh_s)] }
@@ -133,15 +142,21 @@ pub fn run(ctx: &Ctx) -> Report {
         0 => {
           let xs: Vec<u64> = obs.iter().map(|o| o.ta).collect();
           let ys: Vec<u64> = obs.iter().map(|o| o.cell.unwrap()).collect();
+          let (xs2, ys2) = (xs.clone(), ys.clone());
           outs.push(("create_from_times_positions".to_string(), "R2D", catch(move || from_r2d(dt, ds, &R2D::create_from_times_positions(xs, ys, dt, ds)))));
+          outs.push(("create_from_times_positions.time_space_iter".to_string(), "M2", catch(move || via_tsi(dt, ds, &R2D::create_from_times_positions(xs2, ys2, dt, ds)))));
         }
         1 => {
           let ys: Vec<u64> = obs.iter().map(|o| o.cell.unwrap()).collect();
+          let (x2, ys2) = (x.clone(), ys.clone());
           outs.push(("create_from_time_ranges_positions".to_string(), "R2D", catch(move || from_r2d(dt, ds, &R2D::create_from_time_ranges_positions(x, ys, dt, ds)))));
+          outs.push(("create_from_time_ranges_positions.time_space_iter".to_string(), "M2", catch(move || via_tsi(dt, ds, &R2D::create_from_time_ranges_positions(x2, ys2, dt, ds)))));
         }
         _ => {
           let ys: Vec<MocRanges<u64, Hpx<u64>>> = obs.iter().map(|o| MocRanges::new_unchecked(o.s.iter().map(|(a, b)| *a..*b).collect())).collect();
+          let (x2, ys2) = (x.clone(), ys.clone());
           outs.push(("create_from_time_ranges_spatial_coverage".to_string(), "R2D", catch(move || from_r2d(dt, ds, &R2D::create_from_time_ranges_spatial_coverage(x, ys, dt)))));
+          outs.push(("create_from_time_ranges_spatial_coverage.time_space_iter".to_string(), "M2", catch(move || via_tsi(dt, ds, &R2D::create_from_time_ranges_spatial_coverage(x2, ys2, dt)))));
         }
       }
     }
